@@ -11,7 +11,9 @@
 (* Level A (the property text) is stated WITHOUT that order:               *)
 (*   Legal(h)           every attribute the property lists is legal        *)
 (*   I_NoIllegalHandler a handler starts only for a Legal request          *)
-(*   I_MaxStreams       running handlers on the connection <= cap          *)
+(*   I_MaxStreams       streams admitted and still open on the wire (handler *)
+(*                      running, or response held back by the client's     *)
+(*                      flow-control window) <= cap                         *)
 (*   I_ExcessRefused    a Legal request above the cap is answered with     *)
 (*                      RST_STREAM(REFUSED_STREAM)                         *)
 (* TLC checks that the table implies Level A for every attribute           *)
@@ -20,6 +22,7 @@
 (***************************************************************************)
 EXTENDS Integers, Sequences, FiniteSets, TLC
 CONSTANTS Caps,      \* set of MaxConcurrentStreams values
+          Wins,      \* set of client flow-control regimes: "normal" | "tiny" (SETTINGS_INITIAL_WINDOW_SIZE 16, no WINDOW_UPDATE)
           Mutant     \* 0 = as the property demands; 1, 2, 3 = negative controls; 4 = stream-id check as coded
 
 \* ---- the attribute alphabet (first element = the well-behaved value)
@@ -38,10 +41,15 @@ VARIABLES alive,    \* connection still open
           hiSent,   \* highest odd stream id the client has used in a HEADERS frame (0: none)
           maxAdm,   \* highest stream id that passed the server's stream-id check
           open,     \* stream ids with a running handler
+          blocked,  \* stream ids whose handler has returned but whose response / trailers the client's window holds back:
+                    \* still open on the wire, still counted
+          win,      \* the client's flow-control regime on this connection
           viol      \* first violated Level-A clause observed on the model itself
-pvars == <<alive, cap, hiSent, maxAdm, open, viol>>
+pvars == <<alive, cap, hiSent, maxAdm, open, blocked, win, viol>>
+Active == open \cup blocked
 
-PInit == /\ alive = TRUE /\ cap \in Caps /\ hiSent = 0 /\ maxAdm = 0 /\ open = {} /\ viol = "none"
+PInit == /\ alive = TRUE /\ cap \in Caps /\ win \in Wins /\ hiSent = 0 /\ maxAdm = 0 /\ open = {} /\ blocked = {}
+         /\ viol = "none"
 
 \* ---- Level A: which requests may reach a handler
 SidLegal(sid) == sid % 2 = 1 /\ sid > hiSent
@@ -57,7 +65,9 @@ RefusedStream == 7
 \* mark = the high-water mark the stream id is compared with: the property demands hiSent (every id the client has
 \* used); http2_server.go compares with its maxStreamID (maxAdm: ids that got as far as this check)
 IdUsed(sid, mark) == IF Mutant = 1 THEN sid < mark ELSE sid <= mark
-Full == IF Mutant = 2 THEN Cardinality(open) > cap ELSE Cardinality(open) >= cap
+Full == IF Mutant = 2 THEN Cardinality(Active) > cap
+        ELSE IF Mutant = 5 THEN Cardinality(open) >= cap          \* finished-but-unflushed streams forgotten
+        ELSE Cardinality(Active) >= cap
 ServerAdmit(h, mark) ==
   IF h.sid = 0                THEN D("connerr", 0, 0, ProtocolError)      \* framer: HEADERS on stream 0
   ELSE IF h.big = "huge"      THEN D("connerr", 0, 0, ProtocolError)      \* framer: block > 2 x MaxHeaderListSize
@@ -79,7 +89,7 @@ ServerAdmit(h, mark) ==
 \* the request got past the framer, the truncation check and the stream-id check
 PassedIdCheck(h, mark) == h.sid # 0 /\ h.big = "no" /\ h.au # "dupauth" /\ h.sid % 2 = 1 /\ ~IdUsed(h.sid, mark)
 \* Level A: a Legal request that finds the connection at its cap (and carries nothing else the server rejects earlier)
-MustRefuse(h) == Legal(h) /\ Cardinality(open) >= cap /\ h.big = "no" /\ ~h.conn
+MustRefuse(h) == Legal(h) /\ Cardinality(Active) >= cap /\ h.big = "no" /\ ~h.conn
 
 MarkV(v, c, n) == IF v = "none" /\ c THEN n ELSE v
 
@@ -95,19 +105,29 @@ Req(h) ==
                   [] d.k = "handler" -> open \cup {h.sid}
                   [] d.k = "rst" /\ h.au = "dupauth" -> open \ {h.sid}   \* stream error closes an open stream
                   [] OTHER -> open
+     /\ blocked' = CASE d.k = "connerr" -> {}
+                     [] d.k = "rst" /\ h.au = "dupauth" -> blocked \ {h.sid}
+                     [] OTHER -> blocked
      /\ viol' = MarkV(MarkV(viol, d.k = "handler" /\ ~Legal(h), "I_NoIllegalHandler"),
                       MustRefuse(h) /\ ~(d.k = "rst" /\ d.code = RefusedStream), "I_ExcessRefused")
-  /\ UNCHANGED cap
-\* the client cancels an open stream (RST_STREAM CANCEL)
-RstC(sid) == /\ alive /\ sid \in open /\ open' = open \ {sid}
-             /\ UNCHANGED <<alive, cap, hiSent, maxAdm, viol>>
-\* the handler of an open stream returns (status OK)
+  /\ UNCHANGED <<cap, win>>
+\* the client cancels a stream that is open on the wire (RST_STREAM CANCEL)
+RstC(sid) == /\ alive /\ sid \in Active /\ open' = open \ {sid} /\ blocked' = blocked \ {sid}
+             /\ UNCHANGED <<alive, cap, hiSent, maxAdm, win, viol>>
+\* the handler of an open stream returns without a response message (Trailers-Only: not flow controlled)
 Fin(sid) == /\ alive /\ sid \in open /\ open' = open \ {sid}
-            /\ UNCHANGED <<alive, cap, hiSent, maxAdm, viol>>
+            /\ UNCHANGED <<alive, cap, hiSent, maxAdm, blocked, win, viol>>
+\* the handler sends a 4 KB response message and returns: under a tiny window the DATA and the trailers stay queued
+FinMsg(sid) == /\ alive /\ sid \in open /\ open' = open \ {sid}
+               /\ blocked' = IF win = "tiny" THEN blocked \cup {sid} ELSE blocked
+               /\ UNCHANGED <<alive, cap, hiSent, maxAdm, win, viol>>
+\* the client grants window on a blocked stream: the response and the trailers are written, the stream ends
+WinUp(sid) == /\ alive /\ sid \in blocked /\ blocked' = blocked \ {sid}
+              /\ UNCHANGED <<alive, cap, hiSent, maxAdm, open, win, viol>>
 
 \* ---- invariants (Level A on the model)
 I_NoIllegalHandler == viol # "I_NoIllegalHandler"
 I_ExcessRefused == viol # "I_ExcessRefused"
-I_MaxStreams == Cardinality(open) <= cap
+I_MaxStreams == Cardinality(Active) <= cap
 I_OpenWereLegal == \A s \in open : s % 2 = 1 /\ s <= hiSent
 ====
